@@ -207,7 +207,7 @@ func TestSim(t *testing.T) {
 func shrink(rf ReplayFile, run func([]int, bool) RunResult) ReplayFile {
 	want := rf.Violation
 	budget := 400
-	deadline := time.Now().Add(120 * time.Second)
+	deadline := time.Now().Add(time.Duration(envInt("SIM_SHRINK_S", 120)) * time.Second)
 	tests := 0
 	fails := func(vec []int) bool {
 		if tests >= budget || time.Now().After(deadline) {
